@@ -195,6 +195,9 @@ def castScalar {α : Type} (r32 : α → α) : DType → α → α
   | .float32 => r32
   | _ => id
 
+/-- the same, entry by entry, on a flat content -/
+def castList {α : Type} (r32 : α → α) : DType → List α → List α := fun dt l => l.map (castScalar r32 dt)
+
 /-- a unitary as the flat content of its `[2, 2, 2]` pair tensor (`[re/im][row][col]`) -/
 def flatM2 {α : Type} (m : M2 α) : List α :=
   [(m false false).1, (m false true).1, (m true false).1, (m true true).1,
@@ -215,7 +218,7 @@ def defaultCells : List (Char × List α) :=
 /-- `create_dict(**kwargs)` with unitaries as `[2,2,2]` contents -/
 def createDictM2 (r32 : α → α) (defaultDouble : Bool) (h : Heap (List α)) (kw : List (Char × Obj)) :
     Except PyErr (Heap (List α) × List (Char × TRef)) :=
-  createDictArg (fun dt l => l.map (castScalar r32 dt)) defaultDouble defaultCells h kw
+  createDictArg (castList r32) defaultDouble defaultCells h kw
 
 /-- the dictionary a rotation helper sees at a given moment: every key with the matrix its tensor's storage NOW holds -/
 def readDict (h : Heap (List α)) (d : List (Char × TRef)) : Unitaries.UDict α :=
